@@ -58,6 +58,7 @@ META = {
 }
 
 MODS = ["J2O.Props.C19", "J2O.GenProps.C19"]
+FRESH = "\0fresh"
 K = inspect.Parameter
 KIND = {K.POSITIONAL_ONLY: 0, K.POSITIONAL_OR_KEYWORD: 1, K.VAR_POSITIONAL: 2, K.KEYWORD_ONLY: 3,
         K.VAR_KEYWORD: 4}
@@ -97,26 +98,31 @@ def py_binds(S, npos: int, kw) -> bool:
     return True
 
 
-def py_subsets(U):
-    if not U:
-        return [[]]
-    r = py_subsets(U[1:])
-    return r + [[U[0]] + s for s in r]
+def py_candidates(O, W):
+    namesO = [p[0] for p in O]
+    Kn = namesO + [p[0] for p in W if p[0] not in namesO]
+    posO = [p for p in O if p[1] in (0, 1)]
+    cap = max(len(posO), len([p for p in W if p[1] in (0, 1)])) + 1
+    if any(p[1] == 4 for p in O):
+        U = Kn + [FRESH]
+    else:
+        U = [p[0] for p in O if p[1] in (1, 3)]
+    for n in range(cap + 1):
+        req = [p[0] for p in posO[n:] if not p[2]] + [p[0] for p in O if p[1] == 3 and not p[2]]
+        yield (n, req)
+        for k in U:
+            if k not in req:
+                yield (n, [k] + req)
+
+
+def py_all_uncovered(O, W):
+    """Python mirror of J2O.C19.allUncovered (the kernel re-checks the flags it yields)."""
+    return [(n, kw) for (n, kw) in py_candidates(O, W) if py_binds(O, n, kw) and not py_binds(W, n, kw)]
 
 
 def py_find_uncovered(O, W):
-    namesO = [p[0] for p in O]
-    Kn = namesO + [p[0] for p in W if p[0] not in namesO]
-    cap = max(len([p for p in O if p[1] in (0, 1)]), len([p for p in W if p[1] in (0, 1)])) + 1
-    if any(p[1] == 4 for p in O):
-        U = Kn + ["\0fresh"]
-    else:
-        U = [p[0] for p in O if p[1] in (1, 3)]
-    for kw in py_subsets(U):
-        for n in range(cap + 1):
-            if py_binds(O, n, kw) and not py_binds(W, n, kw):
-                return (n, kw)
-    return None
+    r = py_all_uncovered(O, W)
+    return r[0] if r else None
 
 
 # ----------------------------------------------------------------------------- live registry
@@ -278,3 +284,736 @@ end J2O.Gen.C19
 """
     write_if_changed(LEAN / "J2O/Gen/C19.lean", src)
     return live
+
+
+# ----------------------------------------------------------------------------- call forms
+
+
+def form_str(npos: int, kws) -> str:
+    return f"npos={npos};kw={','.join(sorted(kws))}"
+
+
+def causes(W, npos: int, kw) -> list[str]:
+    """Why the substitute rejects the form (Python mirror, used for grouping/reporting only)."""
+    out = []
+    pos = [p for p in W if p[1] in (0, 1)]
+    if npos > len(pos) and not any(p[1] == 2 for p in W):
+        out.append(f"more-than-{len(pos)}-positional")
+    vk = any(p[1] == 4 for p in W)
+    for k in kw:
+        if not (any(p[0] == k and p[1] in (1, 3) for p in W) or vk):
+            out.append(f"unexpected-keyword:{k}")
+    for i, p in enumerate(pos):
+        hit = p[1] == 1 and p[0] in kw
+        if i < npos and hit:
+            out.append(f"multiple-values:{p[0]}")
+        if i >= npos and not (p[2] or hit):
+            out.append(f"missing:{p[0]}")
+    for p in W:
+        if p[1] == 3 and not (p[2] or p[0] in kw):
+            out.append(f"missing:{p[0]}")
+    return sorted(out)
+
+
+def pick_representatives(pair: dict, forms: list[tuple[int, list[str]]]) -> list[dict]:
+    """One form per distinct set of rejection causes: the one closest to how the function is normally
+    called (required arguments positional, `self` positional for methods)."""
+    O, W = pair["O"], pair["W"]
+    posO = [p for p in O if p[1] in (0, 1)]
+    n_req = len([p for p in posO if not p[2]])
+    groups: dict[tuple, list] = {}
+    for (n, kw) in forms:
+        if FRESH in kw:
+            continue
+        if pair["is_method"] and n < 1:
+            continue
+        groups.setdefault(tuple(causes(W, n, kw)), []).append((n, kw))
+    reps = []
+    for cause, fs in sorted(groups.items()):
+        fs.sort(key=lambda f: (abs(f[0] - n_req), len(f[1]), f[0], sorted(f[1])))
+        n, kw = fs[0]
+        reps.append({"npos": n, "kw": sorted(kw), "call_form": form_str(n, kw), "cause": list(cause),
+                     "group_size": len(fs)})
+    return reps
+
+
+# ----------------------------------------------------------------------------- argument factory
+
+
+class _Captured(Exception):
+    pass
+
+
+def _concrete_inputs(tc: dict, rng: np.random.Generator) -> Optional[list]:
+    vals = tc.get("input_values")
+    if vals is not None:
+        return [np.asarray(v) for v in vals]
+    shapes = tc.get("input_shapes")
+    if shapes is None:
+        return []
+    dts = tc.get("input_dtypes") or [np.float32] * len(shapes)
+    out = []
+    for sh, dt in zip(shapes, dts):
+        sh = tuple(sh) if isinstance(sh, (list, tuple)) else (sh,)
+        sh = tuple(3 if isinstance(d, str) else int(d) for d in sh)
+        dt = np.dtype(dt)
+        if dt.kind == "f":
+            a = (rng.standard_normal(sh) * 0.25 + 0.5).astype(dt)
+        elif dt.kind in "iu":
+            a = rng.integers(0, 3, size=sh).astype(dt)
+        elif dt.kind == "b":
+            a = rng.random(sh) > 0.5
+        else:
+            return None
+        out.append(a)
+    return out
+
+
+def capture_call(pair: dict, max_cases: int = 4):
+    """Run the plugin's own testcases eagerly with a recorder on the patched attribute; the first
+    call of the target gives a valid (args, kwargs) for the original."""
+    from jax2onnx.plugins import plugin_system as ps
+    plugin = ps.PLUGIN_REGISTRY.get(pair["plugin"])
+    tcs = list((getattr(plugin, "metadata", None) or {}).get("testcases", []) or [])
+    tgt, attr, orig = pair["tgt_obj"], pair["attr"], pair["orig"]
+    rng = np.random.default_rng(12345)
+    tried = 0
+    for tc in tcs:
+        if tried >= max_cases:
+            break
+        fn = tc.get("callable")
+        if fn is None or tc.get("input_params"):
+            continue
+        tried += 1
+        box: dict = {}
+
+        def recorder(*a, **k):
+            if "call" not in box:
+                box["call"] = (a, dict(k))
+            return orig(*a, **k)
+
+        try:
+            if hasattr(fn, "with_dtype"):
+                fn = fn.with_dtype(np.float32)
+            if hasattr(fn, "instantiate"):
+                fn = fn.instantiate()
+            xs = _concrete_inputs(tc, rng)
+            if xs is None:
+                continue
+            had = attr in getattr(tgt, "__dict__", {})
+            setattr(tgt, attr, recorder)
+            try:
+                fn(*xs)
+            finally:
+                if had or not inspect.isclass(tgt):
+                    setattr(tgt, attr, orig)
+                else:
+                    delattr(tgt, attr)
+        except Exception:
+            if "call" not in box:
+                continue
+        if "call" in box:
+            return box["call"], tc.get("testcase")
+    return None, None
+
+
+def _is_arr(v) -> bool:
+    import jax
+    if isinstance(v, np.ndarray):
+        return v.dtype.kind in "fiub"
+    if isinstance(v, jax.Array):
+        try:
+            return np.dtype(v.dtype).kind in "fiub"
+        except TypeError:
+            return False
+    return False
+
+
+def _split_traced(value, slots: list):
+    """Replace arrays (also inside lists/tuples) by slot markers; everything else stays closed over."""
+    if _is_arr(value):
+        slots.append(np.asarray(value))
+        return ("__slot__", len(slots) - 1)
+    if isinstance(value, (list, tuple)) and not hasattr(value, "_fields") and any(_is_arr(x) for x in value):
+        return type(value)(_split_traced(x, slots) for x in value)
+    return ("__const__", value)
+
+
+def _fill(tmpl, arrs):
+    if isinstance(tmpl, tuple) and len(tmpl) == 2 and tmpl[0] == "__slot__":
+        return arrs[tmpl[1]]
+    if isinstance(tmpl, tuple) and len(tmpl) == 2 and tmpl[0] == "__const__":
+        return tmpl[1]
+    return type(tmpl)(_fill(x, arrs) for x in tmpl)
+
+
+def build_call(pair: dict, captured, npos: int, kws: list[str]):
+    """Concrete (args, kwargs) for the call form: captured values, else the parameter's default."""
+    so: inspect.Signature = pair["so"]
+    (a, k) = captured
+    ba = so.bind(*a, **k)
+    vals = dict(ba.arguments)
+    params = list(so.parameters.values())
+    pos = [p for p in params if p.kind in (K.POSITIONAL_ONLY, K.POSITIONAL_OR_KEYWORD)]
+    if npos > len(pos):
+        return None
+
+    def value(p):
+        if p.name in vals:
+            return vals[p.name]
+        if p.default is not K.empty:
+            return p.default
+        raise KeyError(p.name)
+
+    try:
+        args = [value(p) for p in pos[:npos]]
+        byname = {p.name: p for p in params}
+        kwargs = {name: value(byname[name]) for name in kws}
+    except KeyError:
+        return None
+    return args, kwargs
+
+
+def _np_tree(x):
+    import jax
+    leaves = jax.tree_util.tree_leaves(x)
+    return [np.asarray(l) for l in leaves]
+
+
+RANDOM_TARGETS = re.compile(r"random\.|Dropout|dropout")
+
+
+def run_form(pair: dict, args, kwargs) -> dict:
+    """Eager original first (binding is not validity), then the one-call program through to_onnx."""
+    import jax
+    from jax2onnx import to_onnx
+    tgt, attr = pair["tgt_obj"], pair["attr"]
+    res: dict = {}
+    try:
+        # the original captured before any conversion ran in this process (a conversion may leave
+        # patched attributes behind, see notes/C19.md)
+        expected = pair["orig"](*args, **kwargs)
+        exp_leaves = _np_tree(expected)
+    except Exception as e:
+        return {"status": "original_rejects", "eager_error": f"{type(e).__name__}: {str(e)[:160]}"}
+    slots: list = []
+    t_args = [_split_traced(v, slots) for v in args]
+    t_kwargs = {k: _split_traced(v, slots) for k, v in kwargs.items()}
+
+    def program(*arrs):
+        return getattr(tgt, attr)(*[_fill(t, arrs) for t in t_args],
+                                  **{k: _fill(t, arrs) for k, t in t_kwargs.items()})
+
+    specs = [jax.ShapeDtypeStruct(s.shape, s.dtype) for s in slots]
+    try:
+        model = to_onnx(program, specs)
+    except TypeError as e:
+        tb = traceback.extract_tb(e.__traceback__)
+        where = f"{tb[-1].filename.split('/')[-1]}:{tb[-1].name}" if tb else "?"
+        kind = "binding_typeerror" if BIND_ERR.search(str(e)) else "other_typeerror"
+        return {"status": kind, "error": f"TypeError: {str(e)[:200]}", "raised_in": where,
+                "traced_inputs": len(slots)}
+    except (NotImplementedError, ValueError) as e:
+        return {"status": "explicit_rejection", "error": f"{type(e).__name__}: {str(e)[:200]}"}
+    except Exception as e:
+        return {"status": "other_error", "error": f"{type(e).__name__}: {str(e)[:200]}"}
+    res["status"] = "exported"
+    if RANDOM_TARGETS.search(pair["target"]):
+        res["numeric"] = "skipped (random function)"
+        return res
+    try:
+        import irtools
+        feeds = {i.name: s for i, s in zip(model.graph.input, slots)}
+        if len(feeds) != len(slots):
+            res["numeric"] = "skipped (inputs pruned)"
+            return res
+        got = irtools.run_ort(model, feeds)
+        ok = len(got) == len(exp_leaves) and all(
+            np.asarray(g).shape == e.shape and np.allclose(np.asarray(g, dtype=np.float64) if e.dtype.kind != "b" else g,
+                                                            e.astype(np.float64) if e.dtype.kind != "b" else e,
+                                                            rtol=1e-3, atol=1e-5, equal_nan=True)
+            for g, e in zip(got, exp_leaves))
+        res["numeric"] = "agree" if ok else "DISAGREE"
+        if not ok:
+            res["ort"] = [np.asarray(g).reshape(-1)[:6].tolist() for g in got]
+            res["jax"] = [e.reshape(-1)[:6].tolist() for e in exp_leaves]
+    except Exception as e:
+        res["numeric"] = f"ort unavailable: {type(e).__name__}: {str(e)[:120]}"
+    return res
+
+
+# ----------------------------------------------------------------------------- model validation
+
+
+def _random_sig(rng: common.Rng):
+    pool = ["a", "b", "c", "d", "e", "f", "g", "h", "i", "j"]
+    names = rng.shuffle(pool)
+    n_po, n_pk = rng.randint(0, 2), rng.randint(0, 3)
+    n_ko = rng.randint(0, 2)
+    vp, vk = rng.chance(0.35), rng.chance(0.35)
+    S = []
+    seen_default = False
+    for i in range(n_po + n_pk):
+        if not seen_default and rng.chance(0.4):
+            seen_default = True
+        S.append((names.pop(), 0 if i < n_po else 1, seen_default))
+    if vp:
+        S.append((names.pop(), 2, False))
+    for _ in range(n_ko):
+        S.append((names.pop(), 3, rng.chance(0.5)))
+    if vk:
+        S.append((names.pop(), 4, False))
+    return S
+
+
+def _sig_source(S) -> str:
+    parts, prev = [], None
+    for (n, k, d) in S:
+        if prev == 0 and k != 0:
+            parts.append("/")
+        if k == 3 and prev not in (2, 3):
+            parts.append("*")
+        parts.append({0: n, 1: n, 2: "*" + n, 3: n, 4: "**" + n}[k] + ("=0" if d else ""))
+        prev = k
+    if prev == 0:
+        parts.append("/")
+    return "def f(" + ", ".join(parts) + "): return 1"
+
+
+def validate_model(chk: Check, rng: common.Rng, n: int) -> None:
+    """`binds` against (1) real calls of synthesised functions — must agree exactly — and
+    (2) inspect.Signature.bind — may be stricter only for positional-only names by keyword + **kwargs."""
+    cases, lines = [], []
+    tab = {x: i for i, x in enumerate(["a", "b", "c", "d", "e", "f", "g", "h", "i", "j", "zz", "yy"])}
+    for _ in range(n):
+        S = _random_sig(rng)
+        ns: dict = {}
+        exec(_sig_source(S), ns)
+        f = ns["f"]
+        sig = inspect.signature(f)
+        assert sig_model(sig) == S, (S, sig)
+        npos_max = len([p for p in S if p[1] in (0, 1)]) + 2
+        for _ in range(4):
+            npos = rng.randint(0, npos_max)
+            cand = [p[0] for p in S] + ["zz", "yy"]
+            kws = [k for k in cand if rng.chance(0.3)]
+            try:
+                f(*([0] * npos), **{k: 0 for k in kws})
+                real = True
+            except TypeError:
+                real = False
+            try:
+                sig.bind(*([0] * npos), **{k: 0 for k in kws})
+                insp = True
+            except TypeError:
+                insp = False
+            cases.append((S, npos, kws, real, insp))
+            lines.append(f"B {_enc_sig(S, tab)} ; {npos} " + " ".join(str(tab[k]) for k in kws))
+    ans = common.run_driver("C19", lines)
+    bad, diverge = [], 0
+    for (S, npos, kws, real, insp), a in zip(cases, ans):
+        m = a == "1"
+        chk.count({"op": "binds", "sig": _sig_source(S)[4:-11], "npos": npos, "kw": kws, "model": m,
+                   "python_call": real, "inspect_bind": insp}, nontrivial=m or bool(kws))
+        if m != real or m != py_binds(S, npos, kws):
+            bad.append((_sig_source(S), npos, kws, m, real))
+        if m != insp:
+            po_kw = any(p[1] == 0 and p[0] in kws for p in S) and any(p[1] == 4 for p in S)
+            if m and not insp and po_kw:
+                diverge += 1
+            else:
+                bad.append((_sig_source(S), npos, kws, m, "inspect", insp))
+    chk.add("traces_validated_against_impl", len(lines))
+    chk.info("model_validation", {"random_sig_call_pairs": len(lines), "disagreements_with_real_calls": len(bad),
+                                  "inspect_stricter_posonly_kw_with_varkw": diverge})
+    if bad:
+        # the hand-written model contradicts Python itself: defect of the check, never a VIOLATION
+        raise RuntimeError(f"binding model disagrees with real Python calls: {bad[:5]}")
+
+
+def validate_live(chk: Check, live: dict) -> int:
+    """The model on every representative form of every live pair vs the live Signature objects."""
+    tab = live["names"]
+    tab2 = dict(tab)
+    tab2[FRESH] = max(tab.values(), default=0) + 1
+    lines, cases = [], []
+    done = set()
+    for p in live["pairs"]:
+        if p["row"] in done:
+            continue
+        done.add(p["row"])
+        for (n, kw) in py_candidates(p["O"], p["W"]):
+            lines.append(f"F {_enc_sig(p['O'], tab)} ; {_enc_sig(p['W'], tab)} ; {n} " +
+                         " ".join(str(tab2[k]) for k in kw))
+            cases.append((p, n, kw))
+    ans = common.run_driver("C19", lines)
+    bad = []
+    for (p, n, kw), a in zip(cases, ans):
+        real = []
+        kwn = [("zz_unknown_kw" if k == FRESH else k) for k in kw]
+        for sig in (p["so"], p["sn"]):
+            try:
+                sig.bind(*([None] * n), **{k: None for k in kwn})
+                real.append("1")
+            except TypeError:
+                real.append("0")
+        if a.split() != real:
+            po_kw = any(q[1] == 0 and q[0] in kw for q in p["O"] + p["W"])
+            if not po_kw:
+                bad.append((p["target"], n, kw, a, real))
+    chk.add("traces_validated_against_impl", len(lines))
+    chk.info("live_signature_validation", {"forms": len(lines), "disagreements": len(bad)})
+    if bad:
+        raise RuntimeError(f"binding model disagrees with the live Signature objects: {bad[:5]}")
+    return len(lines)
+
+
+# ----------------------------------------------------------------------------- ignored arguments
+
+
+def unread_parameters(pair: dict) -> Optional[list[str]]:
+    """Wrapper parameters never read in the wrapper body (AST). None = no source."""
+    try:
+        src = textwrap.dedent(inspect.getsource(pair["new"]))
+        fn = ast.parse(src).body[0]
+    except Exception:
+        return None
+    if not isinstance(fn, (ast.FunctionDef, ast.AsyncFunctionDef)):
+        return None
+    a = fn.args
+    params = [x.arg for x in a.posonlyargs + a.args + a.kwonlyargs]
+    params += [a.vararg.arg] if a.vararg else []
+    params += [a.kwarg.arg] if a.kwarg else []
+    loads = {x.id for b in fn.body for x in ast.walk(b) if isinstance(x, ast.Name)}
+    uses_locals = any(isinstance(x, ast.Call) and getattr(x.func, "id", "") in ("locals", "vars")
+                      for b in fn.body for x in ast.walk(b))
+    if uses_locals:
+        return []
+    return [p for p in params if p not in loads and p != "self"]
+
+
+def probe_truncated_normal() -> dict:
+    """The one wrapper whose parameters are unread today: lower/upper must bound the result."""
+    import jax
+    from jax2onnx import to_onnx
+    import irtools
+    key = jax.random.PRNGKey(0)
+    eager = np.asarray(jax.random.truncated_normal(key, 1.0, 2.0, (4,)))
+    model = to_onnx(lambda k: jax.random.truncated_normal(k, 1.0, 2.0, (4,)),
+                    [jax.ShapeDtypeStruct((2,), np.uint32)])
+    got = np.asarray(irtools.run_ort(model, {model.graph.input[0].name: np.asarray(key)})[0])
+    return {"eager_in_bounds": bool(((eager >= 1) & (eager <= 2)).all()),
+            "exported_in_bounds": bool(((got >= 1) & (got <= 2)).all()),
+            "exported": got.tolist(), "eager": eager.tolist(),
+            "ops": [n.op_type for n in model.graph.node]}
+
+
+# ----------------------------------------------------------------------------- the check
+
+
+def _forms_from_driver(live: dict) -> None:
+    """allUncovered of every distinct pair through the Lean driver (names decoded)."""
+    tab = live["names"]
+    inv = {v: k for k, v in tab.items()}
+    firsts = {}
+    for p in live["pairs"]:
+        firsts.setdefault(p["row"], p)
+    rows = sorted(firsts)
+    ans = common.run_driver("C19", [f"A {_enc_sig(firsts[r]['O'], tab)} ; {_enc_sig(firsts[r]['W'], tab)}"
+                                    for r in rows])
+    by_row = {}
+    for r, a in zip(rows, ans):
+        a = a.strip()
+        forms = []
+        if a:
+            for f in a.split(" | "):
+                t = f.split()
+                forms.append((int(t[0]), [inv.get(int(x), FRESH) for x in t[1:]]))
+        by_row[r] = forms
+    for p in live["pairs"]:
+        p["forms"] = by_row[p["row"]]
+
+
+def _captures(pairs: list[dict]) -> None:
+    """capture_call with sharing between aliases of the same original function."""
+    by_orig: dict[int, Any] = {}
+    for p in pairs:
+        cap, tc = capture_call(p)
+        if cap is not None:
+            by_orig.setdefault(id(p["orig"]), (cap, tc))
+        p["capture"], p["capture_tc"] = cap, tc
+    for p in pairs:
+        if p["capture"] is None and id(p["orig"]) in by_orig:
+            p["capture"], p["capture_tc"] = by_orig[id(p["orig"])]
+    # same plugin, same original signature (module alias wrapping the same implementation)
+    for p in pairs:
+        if p["capture"] is None:
+            for q in pairs:
+                if q["capture"] is not None and q["plugin"] == p["plugin"] and q["O"] == p["O"]:
+                    p["capture"], p["capture_tc"] = q["capture"], q["capture_tc"]
+                    break
+
+
+def _extras_call(pair: dict, captured, npos: int, kws: list[str]):
+    """The form plus the optional arguments of the captured call, as long as the enlarged form is
+    still accepted by the original and rejected by the substitute."""
+    so = pair["so"]
+    ba = so.bind(*captured[0], **captured[1])
+    pos = [p[0] for p in pair["O"] if p[1] in (0, 1)]
+    addr = {p[0] for p in pair["O"] if p[1] in (1, 3)}
+    extra = [n for n in ba.arguments if n in addr and n not in kws and n not in pos[:npos]]
+    kw2 = list(kws)
+    for n in extra:
+        if py_binds(pair["O"], npos, kw2 + [n]) and not py_binds(pair["W"], npos, kw2 + [n]):
+            kw2.append(n)
+    return kw2 if len(kw2) > len(kws) else None
+
+
+def replay_form(pair: dict, npos: int, kws: list[str]) -> dict:
+    cap = pair.get("capture")
+    if cap is None:
+        return {"status": "not_replayed", "why": "no testcase of the plugin calls the target"}
+    bc = build_call(pair, cap, npos, kws)
+    if bc is None:
+        return {"status": "not_replayed", "why": "no value for a required argument"}
+    out = run_form(pair, *bc)
+    if out["status"] == "original_rejects":
+        kw2 = _extras_call(pair, cap, npos, kws)
+        if kw2:
+            bc = build_call(pair, cap, npos, kw2)
+            if bc is not None:
+                out2 = run_form(pair, *bc)
+                if out2["status"] != "original_rejects":
+                    out2["replayed_form"] = form_str(npos, kw2)
+                    return out2
+    return out
+
+
+def _what(pair, rep, out) -> str:
+    return (f"{pair['target']}({rep['call_form']}) is accepted by the library function "
+            f"{str(pair['so'])[:120]} but fails while tracing: {out.get('error', out.get('numeric', ''))[:160]}")
+
+
+FAIL_STATUS = ("binding_typeerror", "other_typeerror", "other_error")
+
+
+def run(chk: Check) -> None:
+    rng = common.Rng(chk.seed)
+    thorough = chk.tier == "thorough"
+    live = generate()
+    pairs = live["pairs"]
+    flagged = [p for p in pairs if p["flag_py"] is not None]
+    chk.info("pairs", {"patch_sites": live["n_specs"], "pairs_with_both_signatures": len(pairs),
+                       "distinct_signature_pairs": max((p["row"] for p in pairs), default=-1) + 1,
+                       "generic_substitutes": sum(1 for p in pairs if p["generic"]),
+                       "monkey_patch_specs": sum(1 for p in pairs if p["kind"] == "monkey"),
+                       "onnx_function_sites": sum(1 for p in pairs if p["kind"] == "function"),
+                       "flagged_pairs": len(flagged)})
+    chk.info("originals_absent_in_installed_library", live["missing"])
+    chk.info("callables_without_signature", live["nosig"])
+    chk.log(f"{len(pairs)} pairs ({sum(1 for p in pairs if p['generic'])} generic substitutes), "
+            f"{len(flagged)} flagged, {len(live['missing'])} targets absent, {len(live['nosig'])} without signature")
+    proved = chk.prove(MODS, checker=thorough)
+
+    # ---- the model against Python itself and against the live signature objects
+    validate_model(chk, rng, 750 if not thorough else 8000)
+    validate_live(chk, live)
+
+    # ---- uncovered forms (Lean driver) and agreement with the flags in Gen
+    _forms_from_driver(live)
+    flag_mismatch = [p["target"] for p in pairs if bool(p["forms"]) != (p["flag_py"] is not None)]
+    if flag_mismatch:
+        proved = False
+        chk.broken = getattr(chk, "broken", []) + [f"flag mismatch {flag_mismatch[:5]}"]
+    for p in pairs:
+        chk.count({"target": p["target"], "original": str(p["so"])[:200], "substitute": str(p["sn"])[:200],
+                   "uncovered_forms": len(p["forms"])}, nontrivial=not p["generic"])
+
+    # ---- search: replay every representative uncovered form on the real code
+    _captures(flagged)
+    stats = {"forms_total": 0, "representatives": 0, "confirmed": 0, "original_rejects": 0,
+             "not_replayed": 0, "explicit_rejection": 0, "exported": 0}
+    unlisted = 0
+    details = []
+    for p in flagged:
+        stats["forms_total"] += len(p["forms"])
+        reps = pick_representatives(p, p["forms"])
+        if not reps:
+            stats["not_replayed"] += 1
+            details.append({"target": p["target"], "status": "no representable form"})
+        for rep in reps:
+            stats["representatives"] += 1
+            out = replay_form(p, rep["npos"], rep["kw"])
+            st = out["status"]
+            details.append({"target": p["target"], "call_form": rep["call_form"], "cause": rep["cause"],
+                            "status": st, "error": out.get("error", out.get("eager_error", ""))[:140]})
+            chk.count({"replay": p["target"], "form": rep["call_form"], "status": st}, nontrivial=True)
+            key = {"target": p["target"], "call_form": rep["call_form"], "cause": ",".join(rep["cause"])}
+            replay = {"plugin": p["plugin"], "original_signature": str(p["so"]), "substitute_signature": str(p["sn"]),
+                      "testcase_used_for_arguments": p.get("capture_tc"), "observation": out,
+                      "how": "harness/vcheck.py C19 --replay <this file>"}
+            if st in FAIL_STATUS:
+                stats["confirmed"] += 1
+                if not chk.finding(key, _what(p, rep, out), replay):
+                    unlisted += 1
+            elif st == "exported" and out.get("numeric") == "DISAGREE":
+                key["kind"] = "wrong_result"
+                if not chk.finding(key, _what(p, rep, out), replay):
+                    unlisted += 1
+            elif st == "original_rejects":
+                stats["original_rejects"] += 1
+            elif st == "not_replayed":
+                stats["not_replayed"] += 1
+            elif st == "explicit_rejection":
+                stats["explicit_rejection"] += 1
+            else:
+                stats["exported"] += 1
+    chk.info("replay", stats)
+    chk.info("replay_details", details)
+    chk.add("disagreements_checked", stats["representatives"])
+
+    # ---- meaning of forwarded arguments (validation by execution): sampled non-generic pairs
+    sem = semantic_sample(chk, rng, [p for p in pairs if not p["generic"] and p["kind"] == "monkey"],
+                          24 if not thorough else 10_000)
+    unlisted += sem
+
+    # ---- "no argument is silently ignored": AST pass + execution probe (validation)
+    ignored = []
+    for p in pairs:
+        if p["generic"] or p["kind"] != "monkey":
+            continue
+        u = unread_parameters(p)
+        if u:
+            ignored.append({"target": p["target"], "unread_parameters": u})
+    chk.info("wrappers_with_unread_parameters", ignored)
+    for it in ignored:
+        if it["target"] == "jax.random.truncated_normal":
+            pr = probe_truncated_normal()
+            it["probe"] = pr
+            if pr["eager_in_bounds"] and not pr["exported_in_bounds"]:
+                if not chk.finding({"target": it["target"], "kind": "ignored_arguments",
+                                    "parameters": ",".join(it["unread_parameters"])},
+                                   "jax.random.truncated_normal(key, 1.0, 2.0, (4,)) exports a constant zero tensor: "
+                                   "key/lower/upper are never read by the substitute", {"probe": pr}):
+                    unlisted += 1
+        else:
+            # a wrapper newly ignoring a parameter: no value-level probe is known for it
+            if not chk.finding({"target": it["target"], "kind": "ignored_arguments",
+                                "parameters": ",".join(it["unread_parameters"])},
+                               f"substitute of {it['target']} never reads {it['unread_parameters']}",
+                               {"source": "AST pass over the wrapper body"}):
+                unlisted += 1
+
+    if live["errors"]:
+        chk.violation({"extraction_errors": live["errors"],
+                       "note": "binding_specs()/make_value raised for these plugins: the substitute cannot be installed"},
+                      name="extraction-errors", no_failing_input=True)
+    if not proved and unlisted == 0:
+        chk.violation({"broken": getattr(chk, "broken", []),
+                       "build_log_tail": getattr(chk, "build_log", "")[-3000:],
+                       "note": "a Lean obligation about the regenerated signature table no longer checks and no "
+                               "failing call was found on the real code"},
+                      name="obligation-broken", no_failing_input=True)
+    chk.assumptions += [
+        "inspect.signature describes what a callable binds (substitutes: follow_wrapped=False)",
+        "binding is modelled on call forms (positional count, keyword names); values never influence binding",
+        "argument values for replays come from the plugin's own testcases (captured) or parameter defaults",
+    ]
+    chk.coverage["rule"] = (
+        "every (original, substitute) signature pair of the live registry (non-trivial = substitute is not the "
+        "generic (*args, **kwargs)); model validation: seeded random signatures x call forms against real calls "
+        "(non-trivial = binds or has keywords); replay: one representative form per distinct rejection cause of "
+        "every flagged pair")
+    chk.coverage["exhaustive"] = False
+
+
+def semantic_sample(chk: Check, rng: common.Rng, cands: list[dict], k: int) -> int:
+    """Captured call, all-keyword and all-positional variants of sampled wrappers: ORT vs eager JAX."""
+    seen, uniq = set(), []
+    for p in cands:
+        if p["target"] not in seen:
+            seen.add(p["target"])
+            uniq.append(p)
+    sample = rng.sample(uniq, min(k, len(uniq)))
+    _captures(sample)
+    stats = {"pairs": 0, "calls": 0, "agree": 0, "no_capture": 0, "other": 0}
+    unlisted = 0
+    for p in sample:
+        cap = p.get("capture")
+        if cap is None:
+            stats["no_capture"] += 1
+            continue
+        stats["pairs"] += 1
+        try:
+            ba = p["so"].bind(*cap[0], **cap[1])
+        except TypeError:
+            continue
+        supplied = list(ba.arguments)
+        posn = [q[0] for q in p["O"] if q[1] in (0, 1)]
+        variants = {}
+        n_cap = len(cap[0])
+        variants["as_captured"] = (n_cap, [n for n in cap[1]])
+        n_min = 1 if p["is_method"] else 0
+        n_min = max(n_min, len([q for q in p["O"] if q[1] == 0]))
+        kws = [n for n in supplied if n not in posn[:n_min]]
+        variants["all_keyword"] = (n_min, kws)
+        n_max = 0
+        for n in posn:
+            if n in supplied:
+                n_max += 1
+            else:
+                break
+        variants["all_positional"] = (n_max, [n for n in supplied if n not in posn[:n_max]])
+        for vname, (n, kw) in variants.items():
+            if any(q[1] in (2, 4) and q[0] in kw for q in p["O"]):
+                continue
+            if not (py_binds(p["O"], n, kw) and py_binds(p["W"], n, kw)):
+                continue
+            bc = build_call(p, cap, n, kw)
+            if bc is None:
+                continue
+            out = run_form(p, *bc)
+            stats["calls"] += 1
+            chk.count({"semantic": p["target"], "variant": vname, "form": form_str(n, kw),
+                       "status": out["status"], "numeric": out.get("numeric")}, nontrivial=True)
+            if out["status"] == "exported" and out.get("numeric") == "agree":
+                stats["agree"] += 1
+            elif out["status"] in ("binding_typeerror",) or out.get("numeric") == "DISAGREE":
+                key = {"target": p["target"], "call_form": form_str(n, kw), "kind": "semantic:" + vname}
+                if not chk.finding(key, _what(p, {"call_form": form_str(n, kw)}, out),
+                                   {"observation": out, "variant": vname, "plugin": p["plugin"],
+                                    "testcase_used_for_arguments": p.get("capture_tc")}):
+                    unlisted += 1
+            else:
+                stats["other"] += 1
+                stats.setdefault("other_samples", [])
+                if len(stats["other_samples"]) < 8:
+                    stats["other_samples"].append({"target": p["target"], "variant": vname,
+                                                   "status": out["status"],
+                                                   "detail": (out.get("error") or out.get("eager_error") or
+                                                              out.get("numeric") or "")[:120]})
+    chk.info("semantic_sample", stats)
+    return unlisted
+
+
+def replay(path: str) -> int:
+    rep = json.loads(open(path).read())
+    print(json.dumps(rep, indent=1, default=str)[:2500])
+    key = rep.get("finding_key", {})
+    if "call_form" not in key:
+        if key.get("kind") == "ignored_arguments" and key.get("target") == "jax.random.truncated_normal":
+            pr = probe_truncated_normal()
+            print(pr)
+            return 1 if not pr["exported_in_bounds"] else 0
+        return 0
+    live = collect_pairs()
+    m = re.match(r"npos=(\d+);kw=(.*)", key["call_form"])
+    npos, kws = int(m.group(1)), [k for k in m.group(2).split(",") if k]
+    cands = [p for p in live["pairs"] if p["target"] == key["target"]]
+    _captures(cands)
+    for p in cands:
+        out = replay_form(p, npos, kws)
+        print("now:", out)
+        if out["status"] in FAIL_STATUS or out.get("numeric") == "DISAGREE":
+            return 1
+    return 0
